@@ -208,7 +208,8 @@ def yaml_correspondence(rmodel, facts, res, deplog_names, mism, stats):
             cur = [(n, site)]
             segs.append(cur)
         elif cur is not None and site in ("ConfigData::SaveToStream:emitted-unflushed", "ConfigData::SaveToFile:written",
-                                          "ConfigData::SaveToFile:renamed", "SaveOutputPlugin:written", "SaveOutputPlugin:renamed"):
+                                          "ConfigData::SaveToFile:renamed", "SaveOutputPlugin:written", "SaveOutputPlugin:renamed",
+                                          "ConfigData::SaveToFileAtomically:written", "ConfigData::SaveToFileAtomically:renamed"):
             cur.append((n, site))
             if site.endswith("renamed"):
                 cur = None
